@@ -70,6 +70,14 @@ def gen_case(rng, idx):
             nid += n
             ncmds += n
             ops.append({"op": "burst", "window": rng.randint(1, 8), "cmds": cmds})
+    sizes = [16, 64, 100, 120, 128, 230, 240, 256, 256, 500]
+    style = rng.choice(["same", "same", "independent", "growing", "shrinking"])
+    base = rng.choice(sizes)
+    calls = [op for op in ops if op["op"] != "idle"]
+    drawn = sorted(rng.choice(sizes) for _ in calls)
+    for i, op in enumerate(calls):                # buffer_size is a per-call argument
+        op["buffer_size"] = {"same": base, "independent": rng.choice(sizes), "growing": drawn[i],
+                             "shrinking": drawn[-1 - i]}[style]
     max_tx = ncmds * n_tries + 2
     raw = rng.random() < 0.2
     if raw:
@@ -99,7 +107,7 @@ def gen_case(rng, idx):
                                for k in range(4 * max_tx + 8) if rng.random() < 0.08),
                   "max_selects": 40 * max_tx + 200}
     return {"n_tries": n_tries, "timeout": T, "advance_seq": adv, "policy": policy, "ops": ops, "mood": mood,
-            "idx": idx, "buffer_size": rng.choice([256, 256, 256, 240, 230, 120, 100, 64, 16])}
+            "idx": idx, "buffer_size": base, "positional": rng.random() < 0.5}
 
 
 def special_cases(tier):
@@ -123,6 +131,35 @@ def special_cases(tier):
                 "ops": [{"op": "burst", "window": stuck + 1, "cmds": [[i, 200000] for i in range(stuck)],
                          "cmds_range": [stuck, n + 3, 0]}]}
     return [wrap, skip(2, -2), skip(3, -3)]
+
+
+def history_cases():
+    """State carried on the reused connection object between calls: histories of 2-4 calls on ONE connection
+    whose buffer sizes change from call to call (growing and shrinking across powers of two), every reply a full
+    buffer, no faults; a call that raised (lost request, 1 try) sits in the middle of half of them."""
+    out, idx = [], 2000000
+    for sizes in ([128, 256], [16, 256], [100, 500], [256, 16], [500, 120, 500], [64, 128, 256, 500], [230, 240, 256],
+                  [500, 256, 128, 64]):
+        for broken in (False, True):
+            ops, nid, plan, ntx = [], 0, {}, 0
+            for j, bsz in enumerate(sizes):
+                if broken and j == 1:              # this call ends in the timeout error, the next ones go on
+                    ops.append({"op": "burst", "window": 2, "cmds": [[nid, 0], [nid + 1, 0]], "buffer_size": bsz})
+                    plan[str(ntx)] = {"lost": True, "replies": []}
+                    nid, ntx = nid + 2, ntx + 2
+                n = 3 + j
+                ops.append({"op": "burst" if j % 3 != 2 else "scp", "window": 1 + j, "buffer_size": bsz,
+                            "cmds": [[nid + i, 0] for i in range(n)], "id": nid, "extra": 0, "nargs": 3})
+                if ops[-1]["op"] == "scp":
+                    n = 1
+                nid, ntx = nid + n, ntx + n
+            out.append({"n_tries": 1, "timeout": 10, "advance_seq": 0, "mood": "history", "idx": idx, "buffer_size": 256,
+                        "positional": broken,
+                        "policy": {"kind": "sim", "plan": plan, "exact": [], "max_selects": 400,
+                                   "full_replies": True},
+                        "ops": ops})
+            idx += 1
+    return out
 
 
 def enumerated_cases(tier):
@@ -465,7 +502,7 @@ def run(chk, args):
                  if "case" in f.get("replay", {})]
     else:
         n = 1500 if chk.tier == "quick" else 40000
-        cases = special_cases(chk.tier) + enumerated_cases(chk.tier) + [gen_case(chk.rng, i) for i in range(n)]
+        cases = special_cases(chk.tier) + history_cases() + enumerated_cases(chk.tier) + [gen_case(chk.rng, i) for i in range(n)]
     corpus = os.path.join(lib.VERIF, "corpus", "C06.json")
     if os.path.exists(corpus):
         cases = json.load(open(corpus)) + cases
@@ -551,7 +588,9 @@ def run(chk, args):
         "80% fault simulations (per-transmission outcome ok / request lost / reply lost / delayed 1-3 timeouts / "
         "duplicated / retryable rc / fatal rc, select waking exactly at or one tick after the deadline, late replies "
         "crossing into the next call), 20% raw event scripts (arbitrary duplication and reordering, clock steps "
-        "including backwards); plus three 65 537-command schedules that take the sequence counter round (two or three commands with adjacent "
+        "including backwards), the buffer size an argument of each call (same / independent / growing / shrinking along "
+        "the connection, two replies in five a full buffer), half the connections constructed positionally; 16 directed "
+        "histories of 2-4 calls with changing buffer sizes and full-size replies, some across a call that raised; plus three 65 537-command schedules that take the sequence counter round (two or three commands with adjacent "
         "sequence numbers stuck across the wrap; one with copies "
         "of a reply arriving after 2^k commands, k = 4..16) and an exhaustive enumeration (1-2 commands, window 1-2, "
         "tries <= 3, six outcomes per possible transmission; the quick tier takes its part with <= 2 transmissions). "
